@@ -24,9 +24,52 @@ package mice
 //@   requires base(d.recordBuf) != base(d.nextProof) && d.recordBuf != nil
 //@   ensures[not-last-validated] result == nil && d.nextProof != nil ==> recOK(bytes(d.recordBuf), old(bytes(d.nextProof)), false) && len(d.out) == d.recordSize && len(d.nextProof) == 32 && (forall i int :: 0 <= i && i < 32 ==> d.nextProof[i] == d.recordBuf[d.recordSize + i])
 //@   ensures[last-validated] result == nil && d.nextProof == nil ==> recOK(bytes(d.out), old(bytes(d.nextProof)), true) && len(d.out) <= d.recordSize
+//@   ensures result == nil && d.nextProof != nil ==> d.nextProof == old(d.nextProof)
 //@   ensures[out-is-record-prefix] result == nil ==> base(d.out) == base(d.recordBuf) && off(d.out) == off(d.recordBuf)
 //@   ensures[error-exposes-nothing] result != nil ==> len(d.out) == 0
+//@   ensures[error-keeps-proof] result != nil && result != io.EOF ==> d.nextProof == old(d.nextProof)
 //@   ensures[clean-eof-only-after-last] result == io.EOF ==> d.nextProof == nil && d.encoding == Draft02Encoding
 //@   ensures[clean-eof-validated] result == io.EOF ==> recOK(emptyBytes(), old(bytes(d.nextProof)), true)
 //@   ensures spos(d.r) >= old(spos(d.r)) && spos(d.r) <= send(d.r)
 //@   assigns d.out, d.nextProof, elems(d.recordBuf), elems(d.nextProof), spos(d.r)
+
+// The decoder's representation invariant while records remain (nextProof != nil).
+//@ def decReady(d *decoder) bool = d.r != nil && len(d.nextProof) == 32 && d.recordSize >= 1 && len(d.recordBuf) == d.recordSize + 32 && d.recordBuf != nil && base(d.recordBuf) != base(d.nextProof)
+
+// Read hands out only bytes of d.out, which only readNextRecord fills (after
+// validation). Clean end-of-stream is reported only when no proof is pending
+// (the last record was validated), or by the draft-02 empty final record.
+//@ func (*decoder).Read
+//@   props C15 C10
+//@   returns (n, err)
+//@   requires d.nextProof != nil ==> decReady(d)
+//@   requires base(dst) != base(d.recordBuf) && base(dst) != base(d.nextProof) && base(dst) != base(d.out)
+//@   ensures 0 <= n && n <= len(dst)
+//@   ensures[leftover-first] old(len(d.out)) > 0 ==> err == nil && n <= old(len(d.out)) && (forall i int :: 0 <= i && i < n ==> dst[i] == old(d.out[i])) && d.nextProof == old(d.nextProof)
+//@   ensures[eof-only-when-done] err == io.EOF ==> old(len(d.out)) == 0 && n == 0 && (old(d.nextProof) == nil || (d.encoding == Draft02Encoding && recOK(emptyBytes(), old(bytes(d.nextProof)), true)))
+//@   ensures[refill-is-validated] old(len(d.out)) == 0 && err == nil && d.nextProof != nil ==> recOK(bytes(d.recordBuf), old(bytes(d.nextProof)), false)
+//@   ensures[refill-last-is-validated] old(len(d.out)) == 0 && err == nil && d.nextProof == nil ==> old(d.nextProof) != nil && n + len(d.out) <= d.recordSize
+//@   ensures[error-exposes-nothing] err != nil ==> n == 0
+//@   ensures[inv-a] d.nextProof != nil ==> d.r != nil && len(d.nextProof) == 32 && d.recordSize >= 1
+//@   ensures[inv-b] d.nextProof != nil ==> len(d.recordBuf) == d.recordSize + 32 && d.recordBuf != nil
+//@   ensures[inv-c] d.nextProof != nil ==> base(d.recordBuf) != base(d.nextProof)
+//@   assigns d.out, d.nextProof, elems(d.recordBuf), elems(d.nextProof), elems(dst), spos(d.r)
+
+// NewDecoder: the record size is read from the stream (8 bytes) and refused
+// if zero or above the caller's limit, before any record is read.
+//@ func (Encoding).NewDecoder
+//@   props C15 C10
+//@   returns (rd, err)
+//@   requires r != nil
+//@   requires maxRecordSize <= 4294967296
+//@   ensures[record-size-limits] err == nil ==> typeis(rd, *decoder) && (unboxed(rd, *decoder).nextProof != nil ==> 1 <= unboxed(rd, *decoder).recordSize && unboxed(rd, *decoder).recordSize <= maxRecordSize && decReady(unboxed(rd, *decoder)))
+//@   ensures[consumed-eight] err == nil ==> spos(r) == old(spos(r)) + 8 || spos(r) == old(spos(r))
+//@   ensures spos(r) >= old(spos(r)) && spos(r) <= send(r)
+//@   assigns spos(r)
+
+//@ func (Encoding).parseDigestHeader
+//@   props C15 C14 C10
+//@   may_panic
+//@   returns (proof, err)
+//@   ensures err == nil ==> len(proof) == 32 && proof != nil
+//@   assigns nothing
